@@ -247,6 +247,7 @@ func (e *Explorer) done(alts []workItem) {
 func (e *Explorer) worker(id int) {
 	i := e.newInterpreter()
 	defer i.slv.close()
+	defer e.collectFuncs(i) // the functions of the target executed by this worker (evidence: functions encoded)
 	for {
 		it, ok := e.next()
 		if !ok {
